@@ -15,6 +15,7 @@
 package transport
 
 import (
+	"crypto/tls"
 	"encoding/binary"
 	"io"
 	"net"
@@ -197,6 +198,12 @@ func (p *conn) handshake() error {
 	}
 	p.Lock()
 	p.open = true
+	if tc, ok := p.c.(*tls.Conn); ok {
+		// A TLS listener hands us the connection before the (lazy) TLS
+		// handshake has run; the exchange above completed it, so
+		// only now does the state describe the connection.
+		p.options[mangos.OptionTLSConnState] = tc.ConnectionState()
+	}
 	p.Unlock()
 	return nil
 }
